@@ -31,6 +31,7 @@ import (
 	"time"
 
 	"github.com/apache/skywalking-banyandb/banyand/measure"
+	"github.com/apache/skywalking-banyandb/banyand/stream"
 	"github.com/apache/skywalking-banyandb/banyand/verifharness/vlib"
 	"github.com/apache/skywalking-banyandb/pkg/fs"
 	"github.com/apache/skywalking-banyandb/pkg/logger"
@@ -487,6 +488,47 @@ type shape struct {
 	Rows   int   `json:"rows"`
 	Salt   int64 `json:"salt"`
 	Tagged bool  `json:"tagged"`
+	Engine string `json:"engine"` // "" | "measure" | "stream"
+}
+
+// crashTable is the bare tsTable of either engine (the in-package export files have the same seven functions).
+type crashTable interface {
+	Write(b, nSeries, rowsPer int, tagged bool, salt int64) uint64
+	Flush()
+	Parts() (uint64, []uint64, []uint64)
+	NextPartID() uint64
+	Merge(ids []uint64) (uint64, error)
+	Close()
+}
+
+type recovered struct {
+	Rows  []string
+	Parts []uint64
+	Epoch uint64
+}
+
+func newCrashTable(root string, sh shape) (crashTable, func()) {
+	if sh.Engine == "stream" {
+		idx, _ := os.MkdirTemp("", "c04idx")
+		return stream.VerifNewCrashTable(root, idx), func() { os.RemoveAll(idx) }
+	}
+	return measure.VerifNewCrashTable(root), func() {}
+}
+
+func batchRows(sh shape, b int) ([]string, error) {
+	if sh.Engine == "stream" {
+		return stream.VerifBatchRows(b, sh.Series, sh.Rows, sh.Tagged, sh.Salt)
+	}
+	return measure.VerifBatchRows(b, sh.Series, sh.Rows, sh.Tagged, sh.Salt)
+}
+
+func recoverDir(sh shape, dir string) *recovered {
+	if sh.Engine == "stream" {
+		r := stream.VerifRecover(dir)
+		return &recovered{Rows: r.Rows, Parts: r.Parts, Epoch: r.Epoch}
+	}
+	r := measure.VerifRecover(dir)
+	return &recovered{Rows: r.Rows, Parts: r.Parts, Epoch: r.Epoch}
 }
 
 type run struct {
@@ -523,7 +565,8 @@ func countSnp(root string) int {
 func execute(root string, hist []string, sh shape) (*run, error) {
 	rn := &run{rec: newRecorder(root), batchRow: map[int][]string{}, hist: hist, sh: sh}
 	rec := rn.rec
-	t := measure.VerifNewCrashTable(root)
+	t, dropIndex := newCrashTable(root, sh)
+	defer dropIndex()
 	fs.VerifInstallTracer(rec.onSys)
 	defer fs.VerifInstallTracer(nil)
 	batch := 0
@@ -622,7 +665,7 @@ func execute(root string, hist []string, sh shape) (*run, error) {
 	fs.VerifInstallTracer(nil)
 	t.Close()
 	for b := 1; b <= batch; b++ {
-		rows, err := measure.VerifBatchRows(b, sh.Series, sh.Rows, sh.Tagged, sh.Salt)
+		rows, err := batchRows(sh, b)
 		if err != nil {
 			return rn, err
 		}
@@ -866,7 +909,7 @@ func evaluate(rn *run, k int, im *image) (vs []verdict, stale int, err error) {
 		return nil, 0, err
 	}
 	pt := &rn.rec.points[k]
-	var got *measure.VerifRecovered
+	var got *recovered
 	var pmsg string
 	func() {
 		defer func() {
@@ -874,7 +917,7 @@ func evaluate(rn *run, k int, im *image) (vs []verdict, stale int, err error) {
 				pmsg = fmt.Sprint(p)
 			}
 		}()
-		got = measure.VerifRecover(dir)
+		got = recoverDir(rn.sh, dir)
 	}()
 	if pmsg != "" {
 		if len(pmsg) > 300 {
